@@ -489,6 +489,10 @@ def r5(F, rep):
                 not shared_bad, func=q)
 
 
+# the property is about the threaded build: a configuration compiled without OpenMP has no parallel schedule to analyse
+THOROUGH_CONFIGS = ("default", "debug")
+
+
 def run(F, rep, tier):
     r1(F, rep)
     r2(F, rep)
